@@ -178,10 +178,40 @@ def run_one(prop, idx: int, case: Any, r: R) -> None:
     r._case, r._idx = None, -1
 
 
+def _signature(r: "R") -> tuple:
+    return (r.evals, tuple(sorted(r.outcomes)), tuple(sorted(r.viol_counts.items())))
+
+
 def _run_chunk(chunk: list) -> R:
+    """Run the cases of one shard in order.  The first cases of the shard are executed a
+    second time after all the others ("start from non-initial states too"): the library is
+    deterministic and a case's observations must not depend on what the process did
+    before, so any difference is state leaking between calls (module-level caches,
+    mutated defaults) and is reported."""
     r = R()
-    for idx, case in chunk:
-        run_one(_PROP, idx, case, r)
+    first: list[tuple] = []
+    for n, (idx, case) in enumerate(chunk):
+        if n < 2 and len(chunk) > 2:
+            one = R()
+            run_one(_PROP, idx, case, one)
+            first.append((idx, case, _signature(one)))
+            r.merge(one)
+        else:
+            run_one(_PROP, idx, case, r)
+    for idx, case, sig in first:
+        again = R()
+        run_one(_PROP, idx, case, again)
+        r.count("cases_rerun_after_history")
+        r._case, r._idx = case, idx
+        r.check(
+            _signature(again) == sig,
+            f"{_PROP.ID}/observations-depend-on-process-history",
+            "a case gives the same observations when it is re-run after other cases in the same process",
+            first=sig[0],
+            again=_signature(again)[0],
+            new_cells=[c for c, _ in _signature(again)[2] if c not in dict(sig[2])],
+        )
+        r._case, r._idx = None, -1
     return r
 
 
